@@ -136,10 +136,13 @@ func hHistory(na, nb int) []hEntry {
 			v := sym.U8("val")
 			F = append(F, hEntry{key: k, seq: seq, kind: kind, val: v, sized: sym.Bool("sized"), packed: uint64(v), n: 1})
 		}
-		// SingleDelete contract: at most one write between a SINGLEDEL and the next older
-		// tombstone of the same key.
+		// SingleDelete contract: the key was written at most once since it was last deleted. A
+		// SETWITHDEL carries its own deletion of everything older, so anything may lie below it;
+		// below a plain SET or MERGE that a SINGLEDEL deletes, the next older version must be a
+		// tombstone.
 		for i := first; i+2 < len(F); i++ {
-			sym.Assume(sym.Implies(sym.And(F[i].kind == hSDel, !hIsTomb(F[i+1].kind)), hIsTomb(F[i+2].kind)))
+			plainWrite := sym.Or(F[i+1].kind == hSet, F[i+1].kind == hMerge)
+			sym.Assume(sym.Implies(sym.And(F[i].kind == hSDel, plainWrite), hIsTomb(F[i+2].kind)))
 		}
 	}
 	return F
